@@ -695,8 +695,12 @@ func specMapped(m *mappedFile) bool {
 //@ ghost weekend int
 
 // weekEnd: whatever the weekends file holds, the result is a weekday 0..6.
+// The week-end digit is the first character of the file's content after white space
+// was trimmed from both ends (the file is written as "<digit>\n"; hand-edited files
+// may carry more).
 //@ contract weekEnd
 //@   ensures result1 == nil ==> 0 <= result0 && result0 <= 6
+//@   at call TrimSpace#1: assert issub(arg0, buf, 0, len(buf))
 //@   modifies $fsops
 
 // counterSpan: begin is 00:00 UTC of the current day; end is 00:00 UTC of the
